@@ -413,7 +413,8 @@ def write_evidence(prop, tier, level, coverage, *, assumptions=None, wall_s=0.0,
     if extra:
         ev.update(extra)
     os.makedirs(os.path.join(ROOT, "evidence"), exist_ok=True)
-    path = os.path.join(ROOT, "evidence", prop + ".json")
+    # runs against another tree (--repo: seeded changes, candidate fixes) must not overwrite the evidence of the real tree
+    path = os.path.join(ROOT, "evidence", prop + (".json" if os.path.realpath(REPO) == "/repo" else ".other-tree.json"))
     with open(path, "w") as fh:
         json.dump(ev, fh, indent=1, default=str)
         fh.write("\n")
